@@ -5,6 +5,7 @@
   IS a run of the model (every action was enabled), so the model's theorems speak about it.
 -/
 import MoreExec.Model.Throttle
+import MoreExec.Model.Retry
 
 namespace Driver.Replay
 
@@ -62,5 +63,61 @@ def run (hdr : List String) (lines : Array String) : String :=
   let c0 := match hdr with | _ :: _ :: _ :: c :: _ => optNat c | _ => none
   runActs step parseAct describe (init c0) lines
 end Throttle
+
+namespace Retry
+open MoreExec.Retry
+
+/-- actions as the harness writes them; `submitNow f` / `discard f` name the future, the driver looks the job up -/
+inductive Line
+  | act (a : Act)
+  | submitNowF (f : Nat) (effective : Bool)
+  | discardF (f : Nat)
+
+def parsePol : List String → Option (Option Pol)
+  | ["none"] => some none
+  | ["retry", t] => some (some (.retry (nat! t)))
+  | ["stop"] => some (some .stopNow)
+  | ["raised"] => some (some .raised)
+  | _ => none
+
+def parseLine : List String → Option Line
+  | ["submit", f] => some (.act (.submit (nat! f)))
+  | ["submitNow", f, e] => some (.submitNowF (nat! f) (e = "1"))
+  | ["discard", f] => some (.discardF (nat! f))
+  | ["ddone", d, c] => some (.act (.ddone (nat! d) (c = "1")))
+  | ["cbCancelled", d] => some (.act (.cbCancelled (nat! d)))
+  | "cbPolicy" :: d :: rest => (parsePol rest).map (fun r => .act (.cbPolicy (nat! d) r))
+  | ["cbRetry", d] => some (.act (.cbRetry (nat! d)))
+  | ["cbFinal", d] => some (.act (.cbFinal (nat! d)))
+  | ["cancelScan", f] => some (.act (.cancelScan (nat! f)))
+  | ["cancelDel", f, b] => some (.act (.cancelDel (nat! f) (b = "1")))
+  | ["cancelEnd", f] => some (.act (.cancelEnd (nat! f)))
+  | ["tick", t] => some (.act (.tick (nat! t)))
+  | _ => none
+
+def describe (s : St) : String :=
+  let js := s.jobs.map (fun j => s!"(f{j.fut} a{j.attempt} w{j.whenT} d{j.del} stop={j.stop} old={j.old})")
+  s!"now={s.now} jobs={js} delDone={s.delDone} done={s.done} cancelling={s.cancelling.map (·.1)} decs={s.decs.map (·.1)} submits={s.submits}"
+
+/-- one line; `none` = not enabled -/
+def stepLine (s : St) : Line → Option St
+  | .act a => step s a
+  | .submitNowF f eff =>
+      match jobOfFut s f with
+      | some j =>
+          match step s (.submitNow j) with
+          | some s' => if (s'.submits.length != s.submits.length) == eff then some s' else none
+          | none => none
+      | none =>
+          -- the job was popped by a cancel in between: `_submit_now` pops nothing, sees the future done and returns
+          if !eff && decide (f ∈ s.done) then some s else none
+  | .discardF f =>
+      match jobOfFut s f with
+      | some j => step s (.discard j)
+      | none => none
+
+def run (lines : Array String) : String :=
+  runActs stepLine parseLine describe init lines
+end Retry
 
 end Driver.Replay
